@@ -1156,6 +1156,93 @@ fn batch_combo<C: RangeCombo>(rng: &mut Rng, w: u32, s: u32, bps: &[(u32, Vec<u3
     }
 }
 
+/// C02 / C06 (+ C08 / C18): clear and reuse.  An encoder is driven to an arbitrary point —
+/// preferably one at which words are held back — cleared, and used for a new message: its words
+/// must be those of a fresh encoder (and of the reference coder) and must round-trip; right after
+/// `clear()` it must be empty, report 0 words and show no words.
+fn clear_combo<C: RangeCombo>(rng: &mut Rng, w: u32, s: u32, bps: &[(u32, Vec<u32>)], iters: usize, rep: &mut Report) {
+    let tag = format!("{}x{}", w, s);
+    let mut caps = Caps::new();
+    for _ in 0..iters {
+        let mut coder: Enc<C> = RangeEncoder::new();
+        let mut ops = Vec::new();
+        if rng.chance(3, 4) {
+            steer_inverted::<C>(rng, &mut coder, w, s, bps, 12, &mut ops);
+        } else {
+            for _ in 0..(rng.next() % 10) {
+                let (b, p) = pick_bp(rng, bps);
+                let (cdf, sym) = steer::<C>(rng, &coder, w, s, p, &[], b);
+                if C::enc_sym(&mut coder, b, p, &cdf, sym).unwrap() == "ok" {
+                    ops.push((b, p, cdf, sym));
+                }
+            }
+        }
+        let mut desc = format!("range {:x} {:x} | new{}", w, s, msg_ops(&ops));
+        let inv = enc_view::<C>(&coder).2;
+        rep.count(&format!("C02.clear.{}.{}", if inv { "while_inverted" } else { "while_normal" }, tag));
+        coder.clear();
+        desc.push_str(" | clear");
+        // right after clear: empty, no words, nothing to show (C18, C08)
+        rep.eval("C18");
+        rep.eval("C08");
+        let view = guarded(|| unwords(&coder.get_compressed()));
+        if !coder.is_empty() || coder.num_words() != 0 || coder.num_bits() != 0 || view != Ok(vec![]) {
+            let text = format!("{} | empty | nw | nb | getc => is_empty {} num_words {:x} num_bits {:x} view {:?} right after clear()", desc, coder.is_empty(), coder.num_words(), coder.num_bits(), view.map(show_list));
+            caps.fail(rep, "C18", &tag, text.clone());
+            caps.fail(rep, "C08", &tag, text);
+        }
+        // a new message on the reused encoder and on a fresh one
+        let mut fresh: Enc<C> = RangeEncoder::new();
+        let mut reference = RefCoder::new(s);
+        let mut msg: Vec<(u32, u32, Vec<u128>, usize)> = Vec::new();
+        let n = rng.next() % 12;
+        let mut ok = true;
+        for _ in 0..n {
+            let (b, p) = pick_bp(rng, bps);
+            let (cdf, sym) = steer::<C>(rng, &fresh, w, s, p, &[], b);
+            desc.push_str(&format!(" | enc {:x} {:x} {:x} {:x}", b, p, cdf[sym], cdf[sym + 1] - cdf[sym]));
+            let o1 = guarded(|| C::enc_sym(&mut coder, b, p, &cdf, sym).unwrap());
+            let o2 = C::enc_sym(&mut fresh, b, p, &cdf, sym).unwrap();
+            reference.step(w, s, p, cdf[sym], cdf[sym + 1] - cdf[sym]);
+            rep.eval("C02");
+            if o1 != Ok(o2.clone()) {
+                caps.fail(rep, "C02", &tag, format!("{} => {:?} on the cleared encoder, {} on a fresh one", desc, o1, o2));
+                ok = false;
+                break;
+            }
+            msg.push((b, p, cdf, sym));
+        }
+        if !ok {
+            continue;
+        }
+        rep.eval("C02");
+        rep.eval("C06");
+        let got = guarded(|| export::<C>(&coder));
+        let want = export::<C>(&fresh);
+        let refw = reference.words(w, s);
+        if got != Ok(want.clone()) || show_enc::<C>(&coder) != show_enc::<C>(&fresh) {
+            let text = format!("{} | raw | export => cleared-and-reused encoder {} / {:?}, fresh encoder {} / {}", desc, show_enc::<C>(&coder), got.clone().map(show_list), show_enc::<C>(&fresh), show_list(want.clone()));
+            caps.fail(rep, "C02", &tag, text);
+        }
+        if got != Ok(refw.clone()) {
+            caps.fail(rep, "C06", &tag, format!("{} | export | spec => {:?} but the arbitrary-precision reference coder gives {} for the message after the clear", desc, got.clone().map(show_list), show_list(refw)));
+        }
+        // round trip of what the reused encoder outputs
+        if let Ok(ws) = got {
+            let mut d: Dec<C> = RangeDecoder::from_compressed(words::<C::W>(&ws)).unwrap();
+            rep.eval("C02");
+            match decode_expect::<C, _>(&mut d, &msg) {
+                Ok(()) => {
+                    if !d.maybe_exhausted() {
+                        caps.fail(rep, "C02", &tag, format!("{} | intodec{} | exhausted => false after the last symbol", desc, msg_decs(&msg)));
+                    }
+                }
+                Err(t) => caps.fail(rep, "C02", &tag, format!("{} | intodec{} => {}", desc, msg_decs(&msg), t)),
+            }
+        }
+    }
+}
+
 fn desc_with_snaps(head: &str, msg: &[(u32, u32, Vec<u128>, usize)]) -> String {
     let mut s = format!("{} | snap", head);
     for (b, p, cdf, sym) in msg {
@@ -1172,6 +1259,7 @@ fn all_classes<C: RangeCombo>(rng: &mut Rng, tier: &str, w: u32, s: u32, bps: &[
     // adversarial messages, then the repeated-symbol search
     oracle_combo::<C>(rng, w, s, bps, iters, rep);
     batch_combo::<C>(rng, w, s, bps, iters / 3, rep);
+    clear_combo::<C>(rng, w, s, bps, iters / 3, rep);
     adversarial_combo::<C>(rng, w, s, bps, adv, rep);
     repeated_symbol_combo::<C>(rng, w, s, bps, nq, nrep, rep);
 }
